@@ -205,6 +205,8 @@ def drawing(model, tr, xlim=None, ylim=None):
 def run_assemble(inp):
     d, Tm = drawing(inp["model"], inp["transform"], inp.get("xlim"), inp.get("ylim"))
     try:
+        if not all(hasattr(d, m_) for m_ in ("get_circle_arcpath", "get_straight_arcpath", "get_polygon_arcpath", "preprocess_object")):
+            return {"skip": "the per-edge helpers of the drawing class are not available"}       # not part of the public contract
         poly = d.preprocess_object(make_poly(inp))[0]
         segs = poly.get_edges()
         centers, radii, thetas = segs.circle_parameters(model=d.model)
@@ -231,7 +233,7 @@ def _has_nan(obs):
 
 
 def lean_assemble(inp, obs):
-    if "exc" in obs or _has_nan(obs):
+    if "exc" in obs or "skip" in obs or _has_nan(obs):
         return []        # a vertex at the half-plane's point at infinity has NaN coordinates: not representable exactly
     pcs = [{"verts": [_qpt(v) for v in pc["verts"]], "codes": pc["codes"], "p1": _qpt(pc["p1"]), "p2": _qpt(pc["p2"])} for pc in obs["pieces"]]
     ops = [{"op": "c19.assemble", "tau2": Q.qs(F(TAU) * F(TAU)), "pieces": pcs}]
@@ -241,16 +243,54 @@ def lean_assemble(inp, obs):
     return ops
 
 
+def geometric_path(verts, codes, tau=TAU):
+    """the path as a sequence of drawn pieces: ('L', p0, p1) / ('C', p0, c1, c2, p3); corner joins shorter than the
+    library's own distance threshold (zero-length LINETOs, or none at all) are not part of the geometry"""
+    verts = np.asarray(verts, float)
+    segs, i, cur = [], 0, None
+    while i < len(codes):
+        c = codes[i]
+        if c == 1:
+            cur = verts[i]; i += 1
+        elif c == 2:
+            if np.linalg.norm(verts[i] - cur) > tau:
+                segs.append(("L", cur, verts[i]))
+            cur = verts[i]; i += 1
+        elif c == 4:
+            segs.append(("C", cur, verts[i], verts[i + 1], verts[i + 2]))
+            cur = verts[i + 2]; i += 3
+        else:
+            raise ValueError("unexpected path code %r" % c)
+    return segs
+
+
+def same_geometry(a, b, tau=TAU):
+    if len(a) != len(b):
+        return False
+    for x, y in zip(a, b):
+        if x[0] != y[0] or len(x) != len(y):
+            return False
+        # a piece may start at the end of the previous piece or at its own first vertex (they agree within the threshold)
+        if np.linalg.norm(x[1] - y[1]) > tau:
+            return False
+        for u, v in zip(x[2:], y[2:]):
+            if np.linalg.norm(u - v) > 1e-9 * (1 + np.linalg.norm(v)):
+                return False
+    return True
+
+
 def judge_assemble(inp, obs, lr):
     if "exc" in obs:
         return {"expected": "polygon path", "observed": obs, "tags": {"exc": obs["exc"], "model": inp["model"]}, "property_failure": True}
-    if _has_nan(obs):
+    if "skip" in obs or _has_nan(obs):
         return None
     r = lr[0]
     if "err" in r:
         return {"expected": "model answer", "observed": r, "tags": {"driver_err": r["err"]}}
     mv = [[float(F(x)) for x in v] for v in r["ok"]["verts"]]
-    if r["ok"]["codes"] != obs["codes"] or len(mv) != len(obs["verts"]) or not np.array_equal(np.array(mv), np.array(obs["verts"])):
+    # compared as GEOMETRY (the drawn pieces in order), not as raw vertex / code arrays: zero-length corner joins are free
+    if obs["codes"].count(1) != 1 or obs["codes"][0] != 1 or \
+            not same_geometry(geometric_path(mv, r["ok"]["codes"]), geometric_path(obs["verts"], obs["codes"])):
         return {"expected": {"codes": r["ok"]["codes"], "nverts": len(mv)}, "observed": {"codes": obs["codes"], "nverts": len(obs["verts"])},
                 "tags": {"what": "assembled path", "model": inp["model"], "kind": inp["kind"]}}
     for res, k in zip(lr[1:], obs["kinds"]):
@@ -668,7 +708,7 @@ def gen_hist(rng, n):
                 steps.append({"op": "edit_copy", "obj": j, "how": rng.choice(["ctor", "flatten", "reshape", "copy"]),
                               "pts": [ball_pt(rng, 0.8) for _ in objs[j]["pts"]], "reverse": rng.random() < 0.4})
         steps.append({"op": "draw", "obj": rng.randrange(nobj)})
-        yield {"model": model, "objs": objs, "steps": steps, "iso2": rand_iso(rng)}
+        yield {"model": model, "objs": objs, "steps": steps, "iso2": rand_iso(rng), "iso1": rand_iso(rng) if rng.random() < 0.5 else None}
 
 
 def _mk_obj(o):
@@ -699,9 +739,23 @@ def _read_last(d, kind, before):
     return None
 
 
+def _expect(chain, klein_pts, model):
+    """model coordinates of points after the isometries of `chain` applied one after the other (Isometry.apply on Points:
+    independent of how a drawing composes its transform)"""
+    pt = H.Point(np.array(klein_pts, float), model="klein")
+    for T_ in chain:
+        pt = T_.apply(pt)
+    return klein_to(model, np.asarray(pt.coords("klein"), float))
+
+
 def run_hist(inp):
-    d1 = D.HyperbolicDrawing(model=inp["model"])
-    d2 = D.HyperbolicDrawing(model=inp["model"], transform=iso_matrix(inp.get("iso2")))     # an unrelated drawing (G3)
+    # G18: the drawing may already hold a transform (constructor transform=) before the history starts
+    t1 = iso_matrix(inp.get("iso1"))
+    d1 = D.HyperbolicDrawing(model=inp["model"], transform=t1)
+    chain1 = [] if t1 is None else [t1]
+    t2 = iso_matrix(inp.get("iso2"))
+    d2 = D.HyperbolicDrawing(model=inp["model"], transform=t2)     # an unrelated drawing (G3)
+    chain2 = [] if t2 is None else [t2]
     objs = [_mk_obj(o) for o in inp["objs"]]
     cur = [np.array(o["pts"]) for o in inp["objs"]]
     out = []
@@ -721,9 +775,7 @@ def run_hist(inp):
                 if not _pc(np.asarray(o.proj_data, float), np.asarray(snap_o, float), 1e-6) or not np.array_equal(snap_t, d.transform.proj_data):
                     isolation = 1.0
                 got = _read_last(d, kind, before)
-                Tm = np.asarray(d.transform.proj_data, float)
-                pr = apply_T(Tm, np.concatenate([np.ones((len(cur[st["obj"]]), 1)), cur[st["obj"]]], -1))
-                want = klein_to(inp["model"], pr[:, 1:] / pr[:, :1])
+                want = _expect(chain2 if st.get("second") else chain1, cur[st["obj"]], inp["model"])
                 out.append({"kind": kind, "got": None if got is None else got.tolist(), "want": want.tolist(), "cast": bool(st.get("cast"))})
             elif st["op"] == "edit_copy":
                 # a composite object and a copy of it (constructor / flatten_to_unit / reshape / copy), both queried; ONE of the
@@ -756,10 +808,7 @@ def run_hist(inp):
                     for c_ in d1.ax.collections[before[1]:]:
                         for pth in c_.get_paths():
                             pts_ += list(np.asarray(pth.vertices, float))
-                    Tm = np.asarray(d1.transform.proj_data, float)
-                    flat = base.reshape(-1, 2)
-                    pr = apply_T(Tm, np.concatenate([np.ones((len(flat), 1)), flat], -1))
-                    want = klein_to(inp["model"], pr[:, 1:] / pr[:, :1])
+                    want = _expect(chain1, base.reshape(-1, 2), inp["model"])
                     out.append({"kind": kindc, "got": np.array(pts_).tolist() if pts_ else None, "want": want.tolist(), "cast": False,
                                 "note": "original drawn after its %s copy was edited%s" % (st["how"], " (reverse)" if st["reverse"] else "")})
             elif st["op"] == "edit":
@@ -770,7 +819,10 @@ def run_hist(inp):
                 objs[j].set(fresh.proj_data, aux_data=fresh.aux_data) if hasattr(objs[j], "set") else None
                 cur[j] = np.array(st["pts"])
             else:
-                getattr(d1, st["op"])(iso_matrix(st["iso"]))
+                T_ = iso_matrix(st["iso"])
+                getattr(d1, st["op"])(T_)
+                # set: only T; add: T after everything installed so far; precompose: T before everything installed so far
+                chain1 = {"set_transform": [T_], "add_transform": chain1 + [T_], "precompose_transform": [T_] + chain1}[st["op"]]
     finally:
         plt.close(d1.fig)
         plt.close(d2.fig)
@@ -802,6 +854,148 @@ def judge_hist(inp, obs, lr):
     return None
 
 
+# ------------------------------------------------------------------------------------------------
+# S3d: mixed-kind composites in ONE draw call (G16) and the radius_threshold keyword (G17)
+# ------------------------------------------------------------------------------------------------
+def gen_comp(rng, n):
+    for _ in range(n):
+        model = rng.choice(["poincare", "halfspace", "halfspace"])
+        segs = []
+        for _k in range(rng.choice([2, 3, 4])):
+            kind = rng.choice(["ordinary", "ordinary", "to_infinity", "nearly_straight", "through_origin"])
+            a = ball_pt(rng, 0.8)
+            b = ball_pt(rng, 0.8)
+            if kind == "to_infinity":
+                b = [1.0, 0.0]                       # the half-plane's point at infinity (an ordinary ideal point in the disk)
+            elif kind in ("nearly_straight", "through_origin"):
+                while math.hypot(*a) < 0.2:
+                    a = ball_pt(rng, 0.8)
+                lam = rng.uniform(0.3, 1.0)
+                eps = 0.0 if kind == "through_origin" else rng.choice([3e-2, 1e-2, 3e-3, 1e-3]) * rng.choice([-1, 1])
+                na = math.hypot(*a)
+                b = [-lam * a[0] - eps * a[1] / na, -lam * a[1] + eps * a[0] / na]
+            segs.append({"kind": kind, "a": a, "b": b})
+        horo = [{"angle": rng.choice([0.0, 0.0, rng.uniform(0.5, 5.8), rng.uniform(0.5, 5.8)]), "ref": ball_pt(rng, 0.7)} for _k in range(rng.choice([2, 3]))]
+        pts = [ball_pt(rng, 0.8) if rng.random() < 0.6 else (lambda t: [math.cos(t), math.sin(t)])(rng.uniform(0.5, 5.8)) for _k in range(rng.choice([2, 4]))]
+        yield {"model": model, "segs": segs, "horo": horo, "pts": pts, "radius_threshold": rng.choice([None, 20.0, 200.0, 1000.0]),
+               "transform": rand_iso(rng) if rng.random() < 0.3 else None}
+
+
+def _sig(artists_before, d):
+    """(kind, parameters) of every artist added since `artists_before`"""
+    out = []
+    for a in d.ax.patches[artists_before[0]:]:
+        if isinstance(a, matplotlib.patches.Arc):
+            out.append(["Arc", [float(a.center[0]), float(a.center[1]), float(a.width), float(a.height), float(a.theta1) % 360.0, float(a.theta2) % 360.0]])
+        elif isinstance(a, matplotlib.patches.Rectangle):
+            out.append(["Rectangle", [float(a.get_x()), float(a.get_y()), float(a.get_width()), float(a.get_height())]])
+        else:
+            out.append(["Path", np.asarray(a.get_path().vertices, float).reshape(-1).tolist()])
+    for c in d.ax.collections[artists_before[1]:]:
+        if isinstance(c, matplotlib.collections.EllipseCollection):
+            w = np.asarray(c.get_widths() if hasattr(c, "get_widths") else 2 * c._widths, float)
+            h = np.asarray(c.get_heights() if hasattr(c, "get_heights") else 2 * c._heights, float)
+            for off, w_, h_ in zip(np.asarray(c.get_offsets(), float), w, h):
+                out.append(["Ellipse", [float(off[0]), float(off[1]), float(w_), float(h_)]])
+        else:
+            for pth in c.get_paths():
+                out.append(["Line", np.asarray(pth.vertices, float).reshape(-1).tolist()])
+    for l in d.ax.lines[artists_before[2]:]:
+        for xy in np.asarray(l.get_xydata(), float):
+            out.append(["Marker", [float(xy[0]), float(xy[1])]])
+    return out
+
+
+def _count(d):
+    return (len(d.ax.patches), len(d.ax.collections), len(d.ax.lines))
+
+
+def run_comp(inp):
+    model = inp["model"]
+    kw = {} if inp["radius_threshold"] is None else {"radius_threshold": inp["radius_threshold"]}
+    dA, _ = drawing(model, inp["transform"])
+    dB, _ = drawing(model, inp["transform"])
+    res = {}
+    try:
+        seg_objs = [H.Segment(H.Point(np.array([s_["a"], s_["b"]]), model="klein")) for s_ in inp["segs"]]
+        comp = H.Segment(np.array([o.proj_data for o in seg_objs]))
+        b0 = _count(dA); dA.draw_geodesic(comp, **kw); res["segs_composite"] = _sig(b0, dA)
+        singles = []
+        for o in seg_objs:
+            b0 = _count(dB); dB.draw_geodesic(o, **kw); singles.append(_sig(b0, dB))
+        res["segs_single"] = singles
+        horos = [H.Horosphere(H.IdealPoint.from_angle(h_["angle"]), H.Point(np.array(h_["ref"]), model="klein")) for h_ in inp["horo"]]
+        hcomp = H.Horosphere(np.array([h_.proj_data for h_ in horos]))
+        b0 = _count(dA); dA.draw_horosphere(hcomp); res["horo_composite"] = _sig(b0, dA)
+        hs = []
+        for h_ in horos:
+            b0 = _count(dB); dB.draw_horosphere(h_); hs.append(_sig(b0, dB))
+        res["horo_single"] = hs
+        pobjs = [H.Point(np.array(p_), model="klein") for p_ in inp["pts"]]
+        b0 = _count(dA); dA.draw_point(H.Point(np.array([p_.proj_data for p_ in pobjs]))); res["pts_composite"] = _sig(b0, dA)
+        ps = []
+        for p_ in pobjs:
+            b0 = _count(dB); dB.draw_point(p_); ps.append(_sig(b0, dB))
+        res["pts_single"] = ps
+    finally:
+        plt.close(dA.fig); plt.close(dB.fig)
+    return res
+
+
+def _same_sig(a, b):
+    if a[0] != b[0] or len(a[1]) != len(b[1]):
+        return False
+    x, y = np.array(a[1], float), np.array(b[1], float)
+    if not (np.isfinite(x) == np.isfinite(y)).all():
+        return False
+    m = np.isfinite(x)
+    return bool(np.all(np.abs(x[m] - y[m]) <= 1e-6 * (1 + np.abs(y[m]))))
+
+
+def judge_comp(inp, obs, lr):
+    model = inp["model"]
+    tags = {"model": model, "radius_threshold": inp["radius_threshold"]}
+    if "exc" in obs:
+        return {"expected": "composite drawn", "observed": obs, "tags": dict(tags, exc=obs["exc"])}
+    for nm in ("segs", "horo", "pts"):
+        comp, singles = obs[nm + "_composite"], obs[nm + "_single"]
+        flat = [a for s_ in singles for a in s_]
+        kinds = [x["kind"] for x in inp["segs"]] if nm == "segs" else None
+        if any(len(s_) == 0 for s_ in singles):
+            return {"expected": "an artist for every member drawn alone", "observed": singles, "tags": dict(tags, what=nm + " single missing")}
+        # member i of the composite call is drawn exactly as the single object i (same artists, any order)
+        rest = list(flat)
+        for a in comp:
+            hit = next((i for i, b in enumerate(rest) if _same_sig(a, b)), None)
+            if hit is None:
+                return {"expected": {"artists of the members drawn one by one": flat}, "observed": {"composite call": comp},
+                        "tags": dict(tags, what=nm + " composite differs", kinds=kinds)}
+            rest.pop(hit)
+        if rest:
+            return {"expected": {"artists of the members drawn one by one": flat}, "observed": {"composite call (members missing)": comp},
+                    "tags": dict(tags, what=nm + " member missing", kinds=kinds)}
+    # the radius_threshold keyword decides arc / straight piece
+    R = RTHR if inp["radius_threshold"] is None else inp["radius_threshold"]
+    T = iso_matrix(inp["transform"])
+    chain = [] if T is None else [T]
+    for s_, sg in zip(inp["segs"], obs["segs_single"]):
+        ends = _expect(chain, [s_["a"], s_["b"]], model)
+        if not finite(ends):
+            continue
+        g = ref_geodesic(model, ends[0], ends[1])
+        if g is None:
+            continue
+        r = g[1]
+        is_arc = sg[0][0] == "Arc"
+        if r < 0.9 * R and not is_arc:
+            return {"expected": "an Arc (radius %.3g below radius_threshold %.3g)" % (r, R), "observed": sg[0][0], "tags": dict(tags, what="radius_threshold")}
+        if r > 1.1 * R and is_arc:
+            return {"expected": "a straight piece (radius %.3g above radius_threshold %.3g)" % (r, R), "observed": sg[0], "tags": dict(tags, what="radius_threshold")}
+        if is_arc and abs(sg[0][1][2] - 2 * r) > 2e-4 * (1 + r) * 2:
+            return {"expected": {"radius": r}, "observed": sg[0], "tags": dict(tags, what="arc radius")}
+    return None
+
+
 CLAUSES = [
     Clause("assemble_corr", "corr", gen_poly, run_assemble, judge_assemble, lean=lean_assemble, site="drawtools.HyperbolicDrawing.get_polygon_arcpath",
            budget={"quick": 60, "thorough": 1200},
@@ -812,6 +1006,9 @@ CLAUSES = [
     Clause("history_oracle", "oracle", gen_hist, run_hist, judge_hist, site="drawtools.HyperbolicDrawing (several draws in one drawing)",
            budget={"quick": 60, "thorough": 1500},
            what="drawing histories in one HyperbolicDrawing: draws of the same and of different points / polygons / segments interleaved with set_transform, add_transform, precompose_transform and in-place edits (set); each new artist must show the object's CURRENT geometry under the CURRENT transform"),
+    Clause("composite_oracle", "oracle", gen_comp, run_comp, judge_comp, site="drawtools draw_geodesic / draw_horosphere / draw_point on composites",
+           budget={"quick": 40, "thorough": 1000},
+           what="one draw call on a composite of mixed kinds (ordinary / to-infinity / nearly straight / through-origin segments; horospheres at finite points and at the half-plane's infinity; interior and ideal points): member i is drawn exactly as when drawn alone; every value of the radius_threshold keyword (default, 20, 200, 1000) decides arc vs straight piece"),
     Clause("artists_oracle", "oracle", gen_misc, run_misc, judge_misc, lean=lean_misc, site="drawtools draw_geodesic / draw_point / draw_polygon(klein) / draw_horosphere / ProjectiveDrawing",
            budget={"quick": 60, "thorough": 1500},
            what="Arc centre/radius/extent = the geodesic's; points, Klein polygons and projective polygons/points/segments (charts 0-2) at their model coordinates after the drawing's transform; horocycles; 1-/3-dimensional objects rejected"),
